@@ -334,3 +334,21 @@ package cisco
 //vc:func (*State).checkASAInterfaces$1
 //vc:  ensures result != nil
 //vc:  assert[C07] at "m[tokens[4]] = append(m[tokens[4]], c)" @everyAccessGroupRecorded len(tokens) >= 5 && tokens[3] == "interface"
+
+// C02: a move is suppressed only for a line that is textually the target line
+// (a line that differs in its log attribute must be replaced even inside its
+// block); a route of the device is replaced by at most one new route.
+//vc:func (*State).diffIOSACLs
+//vc:  assert[C02] at "moveACL(cmdPos, b," @suppressOnlyIdenticalLine (arg4 || arg5) ==> same
+//vc:func (*State).diffRoutes
+//vc:  assert[C01,C02] at "delete(delDst, dstOfRoute(c))" @deviceRouteReplacedOnce found
+// insideBlock (closure 4 of diffIOSACLs): the block an insert position belongs
+// to is the block of the line in front of it (remarks belong to the block in
+// front of them); at the top of the ACL there is none. A remark at a block
+// border used to hide that an insert run splits the block (filtering
+// difference, repaired: see known-findings.txt).
+//vc:func (*State).diffIOSACLs$4
+//vc:  hypothesis[C02,C14] 0 <= pos && pos <= len(al)
+//vc:  invariant[C02,C14] 1 "for i := pos - 1; i >= 0; i--" true
+//vc:  invariant[C02,C14] 2 "for i := pos; i < len(al); i++" true
+//vc:  ensures[C02,C14] @blockInFrontOfInsertPosition (pos == 0 ==> result0 == "") && (result0 != "" ==> pos > 0 && result1 == idx2Block[pos-1])
